@@ -866,6 +866,7 @@ coap_oscore_decrypt_pdu(coap_session_t *session,
   coap_bin_const_t external_aad;
   oscore_sender_ctx_t *snd_ctx = NULL;
   int seq_validated = 0;
+  uint64_t prev_last_seq = 0;
   uint8_t rcvd_piv_buffer[8];
   coap_bin_const_t rcvd_piv = { 0, NULL };
 #if COAP_CLIENT_SUPPORT
@@ -1266,6 +1267,8 @@ coap_oscore_decrypt_pdu(coap_session_t *session,
     } else {
       uint64_t last_seq;
 
+      /* put back below if a response that is not validated here does not verify */
+      prev_last_seq = rcp_ctx->last_seq;
       if (rcp_ctx->initial_state == 0) {
         if (!oscore_validate_sender_seq(rcp_ctx, cose)) {
           coap_log_warn("OSCORE: Replayed or old message\n");
@@ -1424,6 +1427,8 @@ coap_oscore_decrypt_pdu(coap_session_t *session,
     } else {
       if (seq_validated)
         oscore_roll_back_seq(rcp_ctx);
+      else if (rcvd_piv.length)
+        rcp_ctx->last_seq = prev_last_seq;
       coap_handle_event_lkd(session->context,
                             COAP_EVENT_OSCORE_DECRYPTION_FAILURE,
                             session);
